@@ -300,7 +300,14 @@ impl<F: Float, L: Label + std::fmt::Debug> TreeNode<F, L> {
                 let score = w * left_score + (1.0 - w) * right_score;
 
                 // Take the midpoint from this value and the next one as split_value
-                split_value = (split_value + sorted_index.sorted_values[i + 1].1) / F::cast(2.0);
+                let next_value = sorted_index.sorted_values[i + 1].1;
+                let midpoint = (split_value + next_value) / F::cast(2.0);
+                // The midpoint of two neighbouring floats rounds onto one of them. Keep the
+                // threshold strictly below the next value, so that `<= split_value` separates
+                // exactly the observations moved to the left so far.
+                if midpoint < next_value {
+                    split_value = midpoint;
+                }
 
                 // override best indices when score improved
                 best = match best.take() {
@@ -639,7 +646,7 @@ fn make_prediction<F: Float, L: Label>(
 ) -> L {
     if node.leaf_node {
         node.prediction.clone()
-    } else if x[node.feature_idx] < node.split_value {
+    } else if x[node.feature_idx] <= node.split_value {
         make_prediction(x, node.left_child.as_ref().unwrap())
     } else {
         make_prediction(x, node.right_child.as_ref().unwrap())
